@@ -146,6 +146,30 @@ impl GraphCase {
                     // message: "type G::N0 illegally references itself: G::N0 -> G::N1 -> G::N0"
                     let Some((_, chain)) = d.message.split_once(": ") else { continue };
                     let ids: Vec<usize> = chain.split("->").filter_map(|s| s.trim().rsplit("::").next().and_then(|x| x.strip_prefix('N')).and_then(|x| x.parse().ok())).collect();
+                    // every element of the chain is a type of the program (nothing else - an enumerator, a field - may
+                    // stand in for one), and the type the message is about is where the chain starts
+                    if ids.len() != chain.split("->").count() || ids.len() < 2 {
+                        out.violate(format!("c05/{fam}/reported-chain-is-not-a-path"), format!("reported chain {chain:?} has elements that are not types of the program\n--- input ---\n{}", input()));
+                        continue;
+                    }
+                    if !d.message.starts_with(&format!("type G::N{} ", ids[0])) {
+                        out.violate(format!("c05/{fam}/chain-does-not-start-at-the-reported-type"), format!("{:?}\n--- input ---\n{}", d.message, input()));
+                    }
+                    // the notes ARE the path of fields: one per link, in the order of the chain, each naming the container
+                    // the link leaves (with its kind), the field it goes through and a type that mentions where it leads
+                    if d.notes.len() != ids.len() - 1 {
+                        out.violate(format!("c05/{fam}/notes-and-links-differ-in-number"), format!("chain {chain:?} has {} links but {} notes: {:?}\n--- input ---\n{}", ids.len() - 1, d.notes.len(), d.notes.iter().map(|n| &n.0).collect::<Vec<_>>(), input()));
+                    } else if ids.iter().all(|i| *i < self.n) {
+                        for (k, (nmsg, _)) in d.notes.iter().enumerate() {
+                            let (from, to) = (ids[k], ids[k + 1]);
+                            let want_head = format!("{} 'N{from}' contains a field named 'f{to}' that is of type '", if self.is_enum[from] { "enum" } else { "struct" });
+                            let leads_there = nmsg.strip_prefix(&want_head).map_or(false, |t| t.contains(&format!("N{to}")));
+                            if !leads_there {
+                                out.violate(format!("c05/{fam}/note-does-not-describe-its-link"), format!("link {k} of {chain:?} goes from N{from} to N{to}: the note must read {want_head:?}... with a type that names N{to}, but is {nmsg:?}\n--- input ---\n{}", input()));
+                                break;
+                            }
+                        }
+                    }
                     if ids.len() >= 2 {
                         let mut ok = ids.first() == ids.last();
                         for w in ids.windows(2) {
